@@ -135,7 +135,7 @@ static Arch arch_of(int a) { return a == kArchX64 ? Arch::kX64 : a == kArchX86 ?
 
 struct Flags {
   bool L = false, V = false, H = false, A = false, RAdbg = false;
-  int static_sel = 0, heap_seed = 0, logfmt = 0;
+  int static_sel = 0, heap_seed = 0, logfmt = 0, enc = 0;
 };
 static const size_t kStaticSizes[] = {64, 256, 1024, 4096, 32768};
 static const uint64_t kBases[] = {Globals::kNoBaseAddress, 0x10000000ull, 0x400000ull, 0x00007f0000000000ull};
@@ -160,6 +160,9 @@ struct ObjSet {
   uint64_t base = Globals::kNoBaseAddress;
   bool logger_on = false;
   Flags fl;
+  bool relocated = false;            // flatten()/relocate_to_base() "should never be called more than once" (per initialisation)
+  std::set<BaseEmitter*> spent;      // Builder/Compiler already finalized: finalize() must not run twice without reset/reinit/detach
+  Error finalize_once(BaseEmitter* e) { if (spent.count(e)) return Error::kOk; spent.insert(e); return e->finalize(); }
 
   static std::vector<uint64_t> make_sbuf(const Flags& f) {
     if (!f.A) return std::vector<uint64_t>();
@@ -180,6 +183,8 @@ struct ObjSet {
     logger.set_flags(ff);
     BaseEmitter* all[] = {&xa, &xb, &xc, &aa, &ab, &ac};
     for (BaseEmitter* e : all) {
+      if (f.enc & 1) e->add_encoding_options(EncodingOptions::kOptimizeForSize);
+      if (f.enc & 2) e->add_encoding_options(EncodingOptions::kOptimizedAlign);
       if (f.V) e->add_diagnostic_options(DiagnosticOptions::kValidateAssembler | DiagnosticOptions::kValidateIntermediate);
       if (f.RAdbg && f.L) e->add_diagnostic_options(DiagnosticOptions::kRAAnnotate | DiagnosticOptions::kRADebugAll);
     }
@@ -189,8 +194,8 @@ struct ObjSet {
     return kind == kAsm ? static_cast<BaseEmitter*>(&xa) : kind == kBuilder ? static_cast<BaseEmitter*>(&xb) : static_cast<BaseEmitter*>(&xc);
   }
   bool inited() const { return code.is_initialized(); }
-  Error do_init(int a, uint64_t b) {
-    Error e = code.init(Environment(arch_of(a)), b);
+  Error do_init(int a, uint64_t b, bool host_features = false) {
+    Error e = host_features ? code.init(Environment(arch_of(a)), CpuInfo::host().features(), b) : code.init(Environment(arch_of(a)), b);
     if (e == Error::kOk) {
       arch = a; base = b;
       code.set_error_handler(&eh);
@@ -213,6 +218,7 @@ struct Snap {
   std::vector<std::string> secbytes;
   size_t nerr = 0;
   bool nonempty = false;
+  std::vector<uint64_t> func_offsets;
 };
 
 static void fmt_format(std::string& s, const OffsetFormat& f) {
@@ -348,8 +354,13 @@ struct Prog {
   size_t nerr = 0, ncalls = 0;
   std::vector<Label> labels;
   std::vector<uint8_t> bound;
+  std::vector<int> lsec, maxref;     // section index where bound; highest section index that references the label by a fixup
   std::vector<Section*> secs;
+  int cur_sec = 0;
   int named_ctr = 0;
+  bool allow_annotations = true;
+  bool force_local_consts = false;
+  std::vector<uint32_t> func_labels;
   bool any_func = false, any_reloc = false, any_section = false, any_named = false, any_fwd = false, any_bwd = false, any_pool = false;
 
   Prog(CodeHolder& c, BaseEmitter* em, int a, int k, vh::Ctx* cx) : code(c), e(em), arch(a), kind(k), ctx(cx) {}
@@ -361,20 +372,37 @@ struct Prog {
   }
   void trl(const char* tag, const Label& l) { ncalls++; sfmt(trace, "%s=%d;", tag, int(l.id())); if (!l.is_valid()) nerr++; }
   // label helpers
-  size_t add_label(const Label& l) { labels.push_back(l); bound.push_back(0); return labels.size() - 1; }
+  size_t add_label(const Label& l) { labels.push_back(l); bound.push_back(0); lsec.push_back(-1); maxref.push_back(-1); return labels.size() - 1; }
+  // A fixup-creating reference (jump, label memory operand) to a label that is already bound in ANOTHER section is outside the API
+  // domain (ASMJIT_ASSERT in CodeHolder::new_fixup); Builder/Compiler serialise section by section, so a label must also not be
+  // bound in a section that precedes a referencing section.
+  int pick_ref(uint64_t sel) {
+    size_t n = labels.size();
+    for (size_t i = 0; i < n; i++) { size_t k = (size_t(sel) + i) % n; if (!bound[k] || lsec[k] == cur_sec) { if (cur_sec > maxref[k]) maxref[k] = cur_sec; return int(k); } }
+    return -1;
+  }
+  void switch_section(size_t idx) { if (tr("sw", e->section(secs[idx])) == Error::kOk) cur_sec = int(idx); }
   size_t need_label() {
     if (labels.empty()) { Label l = e->new_label(); trl("nl", l); if (l.is_valid()) add_label(l); }
     return labels.size();
   }
   int pick_unbound(uint64_t sel) {
     size_t n = labels.size();
-    for (size_t i = 0; i < n; i++) { size_t k = (size_t(sel) + i) % n; if (!bound[k]) return int(k); }
+    for (size_t i = 0; i < n; i++) { size_t k = (size_t(sel) + i) % n; if (!bound[k] && cur_sec >= maxref[k]) return int(k); }
     return -1;
   }
   Error do_bind(size_t k) {
     Error err = tr("bind", e->bind(labels[k]));
     bound[k] = 1;   // Builder: the node is now active whatever happened; never bind again
+    lsec[k] = cur_sec;
     return err;
+  }
+  void bind_all() {
+    bool any = false;
+    for (size_t k = 0; k < labels.size(); k++) if (!bound[k]) any = true;
+    if (!any) return;
+    if (secs.size() > 1 && cur_sec != int(secs.size()) - 1) switch_section(secs.size() - 1);
+    for (size_t k = 0; k < labels.size(); k++) if (!bound[k] && cur_sec >= maxref[k]) do_bind(k);
   }
 };
 
@@ -535,7 +563,7 @@ template<class CC> static void run_func(Prog& p, CC& cc, Cur& c, uint64_t sig, i
 static void run_raw(Prog& p, Cur& c, int max_items) {
   BaseEmitter* e = p.e;
   CodeHolder& code = p.code;
-  if (p.secs.empty()) p.secs.push_back(code.text_section());
+  if (p.secs.empty()) { p.secs.push_back(code.text_section()); p.switch_section(0); }   // the emitter may have been left in another section
   for (int it = 0; it < max_items && c.more(); it++) {
     uint64_t type = c.next() % T_COUNT, a = c.next(), b = c.next(), cc = c.next();
     switch (type) {
@@ -568,7 +596,9 @@ static void run_raw(Prog& p, Cur& c, int max_items) {
       }
       case T_JUMP: {
         if (!p.need_label()) break;
-        size_t k = size_t(a) % p.labels.size();
+        int kk = p.pick_ref(a);
+        if (kk < 0) { Label l = e->new_label(); p.trl("nl", l); if (!l.is_valid()) break; p.add_label(l); kk = p.pick_ref(p.labels.size() - 1); if (kk < 0) break; }
+        size_t k = size_t(kk);
         if (p.bound[k]) { p.any_bwd = true; p.cls("item_jump_bound"); } else { p.any_fwd = true; p.cls("item_jump_unbound"); }
         p.tr("j", jump_inst(p, p.labels[k], b, cc));
         break;
@@ -576,6 +606,7 @@ static void run_raw(Prog& p, Cur& c, int max_items) {
       case T_ALIGN: {
         static const AlignMode modes[] = {AlignMode::kCode, AlignMode::kData, AlignMode::kZero};
         p.tr("al", e->align(modes[a % 3], 1u << (b % 7)));
+        if (cc & 8) { Section* sec = p.secs[size_t(p.cur_sec)]; sec->set_alignment(std::max<uint32_t>(sec->alignment(), 1u << (b % 7))); p.cls("item_section_set_alignment"); }
         p.cls("item_align");
         break;
       }
@@ -615,16 +646,16 @@ static void run_raw(Prog& p, Cur& c, int max_items) {
         break;
       }
       case T_SECTION_NEW: {
-        if (p.secs.size() >= 6) { p.tr("sw", e->section(p.secs[a % p.secs.size()])); break; }
+        if (p.secs.size() >= 6) { p.switch_section(a % p.secs.size()); break; }
         Section* sec = nullptr;
         static const SectionFlags sf[] = {SectionFlags::kNone, SectionFlags::kReadOnly, SectionFlags::kExecutable | SectionFlags::kReadOnly, SectionFlags::kZeroInitialized};
         static const int32_t orders[] = {0, 0, -5, 7, 100};
         Error err = p.tr("ns", code.new_section(Out(sec), kSecNames[a % 8], SIZE_MAX, sf[b % 4], 1u << (cc % 6), orders[(b >> 2) % 5]));
-        if (err == Error::kOk && sec) { p.secs.push_back(sec); p.tr("sw", e->section(sec)); p.any_section = true; }
+        if (err == Error::kOk && sec) { p.secs.push_back(sec); p.switch_section(p.secs.size() - 1); p.any_section = true; }
         p.cls("item_section_new");
         break;
       }
-      case T_SECTION_SWITCH: p.tr("sw", e->section(p.secs[a % p.secs.size()])); p.cls("item_section_switch"); break;
+      case T_SECTION_SWITCH: p.switch_section(a % p.secs.size()); p.cls("item_section_switch"); break;
       case T_CONSTPOOL: {
         Arena arena(1024);
         ConstPool pool(arena);
@@ -640,14 +671,16 @@ static void run_raw(Prog& p, Cur& c, int max_items) {
         if (!l.is_valid()) break;
         size_t k = p.add_label(l);
         p.tr("cp", e->embed_const_pool(l, pool));
-        p.bound[k] = 1;
+        p.bound[k] = 1; p.lsec[k] = p.cur_sec;
         p.any_pool = true;
         p.cls("item_constpool");
         break;
       }
       case T_MEMLABEL: {
         if (!p.need_label()) break;
-        size_t k = size_t(a) % p.labels.size();
+        int kk = p.pick_ref(a);
+        if (kk < 0) break;
+        size_t k = size_t(kk);
         p.tr("ml", memlabel_inst(p, p.labels[k], b, cc));
         if (p.arch == kArchX86) p.any_reloc = true;
         p.cls("item_memlabel");
@@ -727,6 +760,10 @@ struct X86T {
   static Error dec_and_loop(CC& cc, const Gp& cnt, const Label& L) { Error e = cc.emit(x86::Inst::kIdDec, cnt); if (e != Error::kOk) return e; return cc.emit(x86::Inst::kIdJnz, L); }
   static Error skip_if_zero(CC& cc, const Gp& r, const Label& L) { Error e = cc.emit(x86::Inst::kIdTest, r, r); if (e != Error::kOk) return e; return cc.emit(x86::Inst::kIdJz, L); }
   static Error jump(CC& cc, const Label& L) { return cc.emit(x86::Inst::kIdJmp, L); }
+  static Mem sized4(const Mem& m) { Mem r = m; r.set_size(4); return r; }
+  static Error invoke(CC& cc, Out<InvokeNode*> out, int64_t target, const FuncSignature& fs, int&) { return cc.invoke(out, Imm(target), fs); }
+  static Error load_label_address(CC& cc, const Gp& r, const Label& L) { return cc.emit(x86::Inst::kIdLea, r, x86::ptr(L)); }
+  static Error indirect_jump(CC& cc, const Gp& r, JumpAnnotation* ann) { return cc.jmp(r, ann); }
 };
 
 struct A64T {
@@ -748,6 +785,14 @@ struct A64T {
   static Error dec_and_loop(CC& cc, const Gp& cnt, const Label& L) { Error e = cc.emit(a64::Inst::kIdSubs, cnt, cnt, Imm(1)); if (e != Error::kOk) return e; return cc.emit(BaseInst::compose_arm_inst_id(a64::Inst::kIdB, a64::CondCode::kNE), L); }
   static Error skip_if_zero(CC& cc, const Gp& r, const Label& L) { return cc.emit(a64::Inst::kIdCbz, r, L); }
   static Error jump(CC& cc, const Label& L) { return cc.emit(a64::Inst::kIdB, L); }
+  static Mem sized4(const Mem& m) { return m; }
+  static Error invoke(CC& cc, Out<InvokeNode*> out, int64_t target, const FuncSignature& fs, int& ctr) {
+    Gp t = cc.new_gpz("tgt%d", ctr++);
+    cc.emit(a64::Inst::kIdMov, t, Imm(target & 0xFFFF));
+    return cc.invoke(out, t, fs);
+  }
+  static Error load_label_address(CC& cc, const Gp& r, const Label& L) { return cc.emit(a64::Inst::kIdAdr, r, L); }
+  static Error indirect_jump(CC& cc, const Gp& r, JumpAnnotation* ann) { return cc.br(r, ann); }
 };
 
 template<class T> struct TraitsOf;
@@ -770,18 +815,20 @@ static void run_func(Prog& p, CC& cc, Cur& c, uint64_t sig, int nbody) {
   if (!fn) { p.nerr++; p.trace += "func!;"; // consume the body items anyway
     for (int i = 0; i < nbody && c.more(); i++) { c.next(); c.next(); c.next(); c.next(); } return; }
   sfmt(p.trace, "func=%d;", int(fn->label().id()));
+  p.func_labels.push_back(fn->label().id());
   if ((sig >> 20) & 1) fn->frame().set_preserved_fp();
   std::vector<Gp> g32, gz; std::vector<Vec> vs;
   int ctr = 0;
   for (int i = 0; i < nargs; i++) {
-    if (at[i] == 0) { Gp r = T::gp32(cc, "a%d", i); g32.push_back(r); p.tr("sa", fn->set_arg(size_t(i), r)); }
-    else if (at[i] == 1) { Gp r = T::gpz(cc, "p%d", i); gz.push_back(r); p.tr("sa", fn->set_arg(size_t(i), r)); }
-    else { Vec r = T::vec(cc, "f%d", i); vs.push_back(r); p.tr("sa", fn->set_arg(size_t(i), r)); }
+    if (at[i] == 0) { Gp r = T::gp32(cc, "a%d", i); g32.push_back(r); fn->set_arg(size_t(i), r); }
+    else if (at[i] == 1) { Gp r = T::gpz(cc, "p%d", i); gz.push_back(r); fn->set_arg(size_t(i), r); }
+    else { Vec r = T::vec(cc, "f%d", i); vs.push_back(r); fn->set_arg(size_t(i), r); }
   }
   auto need32 = [&]() { if (g32.empty()) { Gp r = T::gp32(cc, "t%d", ctr++); p.tr("mi", T::mov_imm(cc, r, 7)); g32.push_back(r); } };
   auto needv = [&]() { if (vs.empty()) { need32(); Vec v = T::vec(cc, "v%d", ctr++); p.tr("vi", T::vec_init(cc, v, g32[0])); vs.push_back(v); } };
   for (int i = 0; i < nbody && c.more(); i++) {
-    uint64_t bt = c.next() % 12, a = c.next(), b = c.next(), d = c.next();
+    uint64_t bt = c.next(), a = c.next(), b = c.next(), d = c.next();
+    bt = (bt + d) % 13;
     switch (bt) {
       case 0: { Gp r = T::gp32(cc, "t%d", ctr++); p.tr("mi", T::mov_imm(cc, r, int64_t(a % 100000))); g32.push_back(r); p.cls("func_new_gp32"); break; }
       case 1: { Gp r = T::gpz(cc, "z%d", ctr++); p.tr("mi", T::mov_imm(cc, r, int64_t(a % 1000))); gz.push_back(r); p.cls("func_new_gpz"); break; }
@@ -792,7 +839,7 @@ static void run_func(Prog& p, CC& cc, Cur& c, uint64_t sig, int nbody) {
       case 6: {
         need32();
         Mem m = cc.new_stack(uint32_t(4 << (a % 4)), uint32_t(4 << (b % 3)), (d & 1) ? "stk" : nullptr);
-        Mem m4 = m; m4.set_size(4);
+        Mem m4 = T::sized4(m);
         p.tr("st", T::store(cc, m4, g32[a % g32.size()]));
         p.tr("ld", T::load(cc, g32[b % g32.size()], m4));
         p.cls("func_stack");
@@ -801,6 +848,7 @@ static void run_func(Prog& p, CC& cc, Cur& c, uint64_t sig, int nbody) {
       case 7: {
         need32();
         int32_t v = int32_t(b % 5) * 1111;
+        if (p.force_local_consts) d &= ~uint64_t(1);
         Mem m = cc.new_const((d & 1) ? ConstPoolScope::kGlobal : ConstPoolScope::kLocal, &v, 4);
         p.tr("cl", T::load(cc, g32[a % g32.size()], m));
         p.any_pool = true;
@@ -839,7 +887,7 @@ static void run_func(Prog& p, CC& cc, Cur& c, uint64_t sig, int nbody) {
         need32();
         InvokeNode* inv = nullptr;
         FuncSignature cs; cs.set_ret(TypeId::kInt32); cs.add_arg(TypeId::kInt32); cs.add_arg(TypeId::kInt32);
-        Error err = p.tr("inv", cc.invoke(Out(inv), Imm(int64_t(0x12340000 + (a % 16) * 64)), cs));
+        Error err = p.tr("inv", T::invoke(cc, Out(inv), int64_t(0x12340000 + (a % 16) * 64), cs, ctr));
         if (err == Error::kOk && inv) {
           inv->set_arg(0, g32[a % g32.size()]);
           inv->set_arg(1, g32[b % g32.size()]);
@@ -848,6 +896,30 @@ static void run_func(Prog& p, CC& cc, Cur& c, uint64_t sig, int nbody) {
           g32.push_back(r);
         }
         p.cls("func_invoke");
+        break;
+      }
+      case 11: {
+        // indirect jump with a JumpAnnotation listing the possible targets
+        if (!p.allow_annotations) { p.tr("cm", cc.comment("no annotation")); break; }
+        Label L0 = cc.new_label(), L1 = cc.new_label(), Le = cc.new_label();
+        p.trl("nl", L0); p.trl("nl", L1); p.trl("nl", Le);
+        if (!L0.is_valid() || !L1.is_valid() || !Le.is_valid()) break;
+        need32();
+        Gp tgt = T::gpz(cc, "jt%d", ctr++);
+        p.tr("la", T::load_label_address(cc, tgt, (a & 1) ? L1 : L0));
+        JumpAnnotation* ann = cc.new_jump_annotation();
+        if (!ann) { p.nerr++; p.trace += "ann!;"; break; }
+        sfmt(p.trace, "ann=%u;", ann->annotation_id());
+        p.tr("al0", ann->add_label(L0));
+        p.tr("al1", ann->add_label(L1));
+        p.tr("ij", T::indirect_jump(cc, tgt, ann));
+        p.tr("bind", cc.bind(L0));
+        p.tr("oi", T::binop_imm(cc, 0, g32[a % g32.size()], 11));
+        p.tr("jmp", T::jump(cc, Le));
+        p.tr("bind", cc.bind(L1));
+        p.tr("oi", T::binop_imm(cc, 1, g32[b % g32.size()], 22));
+        p.tr("bind", cc.bind(Le));
+        p.cls("func_jump_annotation");
         break;
       }
       default: {
@@ -868,17 +940,18 @@ static void run_func(Prog& p, CC& cc, Cur& c, uint64_t sig, int nbody) {
 // =====================================================================================================================
 // Running P_final and the history
 // =====================================================================================================================
-static void run_final(ObjSet& hs, BaseEmitter* e, int arch, int kind, const vh::Op& prog, int post, vh::Ctx* cx, Snap& sn, Prog** info_out = nullptr) {
+static void run_final(ObjSet& hs, BaseEmitter* e, int arch, int kind, const vh::Op& prog, int post, vh::Ctx* cx, Snap& sn, Prog** info_out = nullptr, bool slice_mode = false) {
   CodeHolder& code = hs.code;
   size_t eh_mark = hs.eh.msgs.size();
   hs.logger.clear();
   static thread_local std::unique_ptr<Prog> keep;
   keep.reset(new Prog(code, e, arch, kind, cx));
   Prog& p = *keep;
+  p.force_local_consts = slice_mode;
   Cur c(prog, 4);
   int pf = prog.size() > 2 ? int(prog[2]) : 0;
   run_raw(p, c, 64);
-  if (pf & 4) for (size_t k = 0; k < p.labels.size(); k++) if (!p.bound[k]) p.do_bind(k);
+  if (pf & 4) p.bind_all();
   if (kind != kAsm) {
     BaseBuilder* bb = static_cast<BaseBuilder*>(e);
     String sb;
@@ -890,6 +963,7 @@ static void run_final(ObjSet& hs, BaseEmitter* e, int arch, int kind, const vh::
     p.tr("fin", e->finalize());
   }
   take_snapshot(code, sn);
+  for (uint32_t id : p.func_labels) sn.func_offsets.push_back(code.is_label_bound(id) ? code.label_offset(id) : ~uint64_t(0));
   if (post) post_steps(code, kBases[1 + (post - 1) % 3], sn.post, nullptr);
   sn.trace = p.trace;
   sn.nerr = p.nerr;
@@ -934,7 +1008,7 @@ static void inject_error(ObjSet& o, const vh::Op& op, vh::Ctx& ctx, Hist& h) {
       hist_ensure(o, int(a), kind == kCompiler ? kBuilder : kind, e);
       Operand_ ops[1] = {Label(uint32_t(code.label_count() + 77))};
       did = e->emit_op_array(o.arch == kArchA64 ? InstId(a64::Inst::kIdB) : InstId(x86::Inst::kIdJmp), ops, 1) != Error::kOk;
-      if (e->is_builder()) did = e->finalize() != Error::kOk;
+      if (e->is_builder() && !o.spent.count(e)) did = o.finalize_once(e) != Error::kOk;
       break;
     }
     case 3: { hist_ensure(o, int(a), kAsm, e); Label l = e->new_label(); e->bind(l); did = e->bind(l) != Error::kOk; break; }
@@ -945,7 +1019,12 @@ static void inject_error(ObjSet& o, const vh::Op& op, vh::Ctx& ctx, Hist& h) {
     case 8: { hist_ensure(o, int(a), kind == kCompiler ? kBuilder : kind, e); did = e->embed_label(Label(uint32_t(code.label_count() + 5)), 4) != Error::kOk; Label l = e->new_label(); did |= e->embed_label(l, 3) != Error::kOk; break; }
     case 9: {   // emit on a detached emitter: documented to fail with kNotInitialized
       BaseEmitter* x = o.em(int(a % 3), kind);
-      if (!x->code()) { Operand_ none[1]; did = x->emit_op_array(1, none, 0) != Error::kOk; }
+      if (!x->code()) {
+        Operand_ none[1];
+        size_t before = o.eh.msgs.size();
+        did = x->emit_op_array(1, none, 0) != Error::kOk;
+        if (o.eh.msgs.size() != before) ctx.fail_unless_known("detached-emitter-uses-old-error-handler", "a detached emitter reported an error to the error handler of its former holder");
+      }
       break;
     }
     case 10: if (!o.inited()) did = code.reinit() != Error::kOk; else did = code.init(Environment(arch_of(o.arch))) != Error::kOk; break;
@@ -953,7 +1032,7 @@ static void inject_error(ObjSet& o, const vh::Op& op, vh::Ctx& ctx, Hist& h) {
     case 12: {  // function that jumps to a label that is never bound -> finalize fails inside the RA pass / serialization
       hist_ensure(o, int(a), kCompiler, e);
       BaseCompiler* cc = static_cast<BaseCompiler*>(e);
-      if (cc->func()) break;
+      if (cc->func() || o.spent.count(e)) break;
       FuncSignature fs; fs.set_ret(TypeId::kInt32); fs.add_arg(TypeId::kInt32);
       FuncNode* fn = nullptr;
       if (cc->add_func_node(Out(fn), fs) != Error::kOk || !fn) break;
@@ -961,13 +1040,13 @@ static void inject_error(ObjSet& o, const vh::Op& op, vh::Ctx& ctx, Hist& h) {
       if (o.arch == kArchA64) { a64::Compiler& c = o.ac; a64::Gp r = c.new_gp32("e"); fn->set_arg(0, r); c.add(r, r, 1); c.cbz(r, l); c.ret(r); }
       else { x86::Compiler& c = o.xc; x86::Gp r = c.new_gp32("e"); fn->set_arg(0, r); c.add(r, 1); c.jz(l); c.ret(r); }
       cc->end_func();
-      did = e->finalize() != Error::kOk;
+      did = o.finalize_once(e) != Error::kOk;
       break;
     }
     case 13: {  // unfinished function (no end_func) left in the compiler
       hist_ensure(o, int(a), kCompiler, e);
       BaseCompiler* cc = static_cast<BaseCompiler*>(e);
-      if (cc->func()) break;
+      if (cc->func() || o.spent.count(e)) break;
       FuncSignature fs; fs.set_ret(TypeId::kVoid);
       FuncNode* fn = nullptr;
       if (cc->add_func_node(Out(fn), fs) != Error::kOk || !fn) break;
@@ -995,6 +1074,49 @@ static void inject_error(ObjSet& o, const vh::Op& op, vh::Ctx& ctx, Hist& h) {
   else ctx.cls("hist_error_not_applicable");
 }
 
+// A detached emitter (we never give emitters an own logger / error handler) must not keep anything of its former holder.
+static void check_detached(vh::Ctx& ctx, ObjSet& o, const char* when) {
+  for (int a = 0; a < 3; a += 2) for (int k = 0; k < 3; k++) {
+    BaseEmitter* e = o.em(a, k);
+    if (e->code()) continue;
+    std::string why;
+    if (e->logger()) why += "logger ";
+    if (e->error_handler()) why += "error_handler ";
+    if (e->inst_options() != InstOptions::kNone) why += "inst_options ";
+    if (e->has_extra_reg()) why += "extra_reg ";
+    if (e->inline_comment()) why += "inline_comment ";
+    if (e->has_emitter_flag(EmitterFlags::kAttached)) why += "kAttached ";
+    if (e->_attached_prev || e->_attached_next) why += "attached_links ";
+    if (e->environment().is_initialized()) why += "environment ";
+    if (k != kAsm) {
+      BaseBuilder* bb = static_cast<BaseBuilder*>(e);
+      if (bb->first_node()) why += "node_list ";
+      if (!bb->_passes.is_empty()) why += "passes ";
+      if (!bb->_label_nodes.is_empty()) why += "label_nodes ";
+      if (!bb->_section_nodes.is_empty()) why += "section_nodes ";
+      if (bb->cursor()) why += "cursor ";
+    }
+    if (k == kCompiler) {
+      BaseCompiler* bc = static_cast<BaseCompiler*>(e);
+      if (!bc->virt_regs().is_empty()) why += "virt_regs ";
+      if (bc->func()) why += "func ";
+      if (bc->_const_pools[0] || bc->_const_pools[1]) why += "const_pools ";
+      if (!bc->jump_annotations().is_empty()) why += "jump_annotations ";
+    }
+    bool clean = why.empty();
+    if (!clean) {
+      // one key per stale member so that a known finding does not hide the others
+      size_t p0 = 0;
+      while (p0 < why.size()) {
+        size_t p1 = why.find(' ', p0);
+        std::string w = why.substr(p0, p1 - p0);
+        ctx.fail_unless_known("residue-detached-emitter:" + w, std::string(when) + ": detached " + kKindName[k] + " emitter still has state of its former holder: " + why);
+        p0 = p1 + 1;
+      }
+    }
+  }
+}
+
 static void apply_hist(ObjSet& o, const vh::Op& op, vh::Ctx& ctx, Hist& h) {
   if (op.empty()) return;
   int opc = int(uint64_t(op[0]) % 10);
@@ -1002,7 +1124,7 @@ static void apply_hist(ObjSet& o, const vh::Op& op, vh::Ctx& ctx, Hist& h) {
   CodeHolder& code = o.code;
   switch (opc) {
     case 0: {
-      if (!o.inited()) { o.do_init(int(arg(1) % 3), kBases[arg(2) % 4]); ctx.cls("hist_init"); sfmt(h.text, "init(%s) ", kArchName[o.arch]); }
+      if (!o.inited()) { o.do_init(int(arg(1) % 3), kBases[arg(2) % 4], arg(3) & 1); ctx.cls((arg(3) & 1) ? "hist_init_with_cpu_features" : "hist_init"); sfmt(h.text, "init(%s) ", kArchName[o.arch]); }
       break;
     }
     case 1: {
@@ -1013,13 +1135,15 @@ static void apply_hist(ObjSet& o, const vh::Op& op, vh::Ctx& ctx, Hist& h) {
       int kind = int(arg(1) % 3), pf = int(arg(2));
       BaseEmitter* e = nullptr;
       hist_ensure(o, int(arg(3)), kind, e);
+      if (o.spent.count(e)) { ctx.cls("hist_gen_skipped_emitter_already_finalized"); break; }
       Prog p(code, e, o.arch, kind, nullptr);
+      if (ctx.is_known("residue-detached-emitter:jump_annotations")) { p.allow_annotations = false; ctx.known_excluded("residue-detached-emitter:jump_annotations"); }
       Cur c(op, 4);
       run_raw(p, c, 64);
-      if (pf & 4) for (size_t k = 0; k < p.labels.size(); k++) if (!p.bound[k]) p.do_bind(k);
+      if (pf & 4) p.bind_all();
       bool nodes = kind != kAsm && p.ncalls > 0;
-      if (kind != kAsm && (pf & 1)) { e->finalize(); ctx.cls("hist_gen_finalized"); } else if (kind != kAsm) ctx.cls("hist_gen_not_finalized");
-      if (pf & 2) { std::string tmp; uint64_t b = kBases[1 + (arg(3) >> 2) % 3]; post_steps(code, b, tmp, nullptr); o.base = b; ctx.cls("hist_gen_relocated"); }
+      if (kind != kAsm && (pf & 1)) { o.finalize_once(e); ctx.cls("hist_gen_finalized"); } else if (kind != kAsm) ctx.cls("hist_gen_not_finalized");
+      if ((pf & 2) && !o.relocated) { o.relocated = true; std::string tmp; uint64_t b = kBases[1 + (arg(3) >> 2) % 3]; post_steps(code, b, tmp, nullptr); o.base = b; ctx.cls("hist_gen_relocated"); }
       bool nonempty = code.code_size() > 0 || code.label_count() > 0 || nodes;
       h.n_gen++;
       if (nonempty) { h.gen_nonempty = true; h.reset_after_gen = false; ctx.cls("hist_gen_nonempty"); } else ctx.cls("hist_gen_empty");
@@ -1031,13 +1155,13 @@ static void apply_hist(ObjSet& o, const vh::Op& op, vh::Ctx& ctx, Hist& h) {
     case 3: inject_error(o, op, ctx, h); h.text += "err "; break;
     case 4: {
       bool hard = arg(1) & 1;
-      if (o.inited()) { code.reset(hard ? ResetPolicy::kHard : ResetPolicy::kSoft); o.base = Globals::kNoBaseAddress; o.logger_on = false; h.n_reset++; if (h.gen_nonempty) h.reset_after_gen = true;
-        ctx.cls(hard ? "hist_reset_hard" : "hist_reset_soft"); h.text += hard ? "reset(hard) " : "reset(soft) "; }
+      if (o.inited()) { code.reset(hard ? ResetPolicy::kHard : ResetPolicy::kSoft); o.spent.clear(); o.relocated = false; o.base = Globals::kNoBaseAddress; o.logger_on = false; h.n_reset++; if (h.gen_nonempty) h.reset_after_gen = true;
+        ctx.cls(hard ? "hist_reset_hard" : "hist_reset_soft"); h.text += hard ? "reset(hard) " : "reset(soft) "; check_detached(ctx, o, "after reset()"); }
       break;
     }
-    case 5: if (o.inited()) { code.reinit(); h.n_reset++; if (h.gen_nonempty) h.reset_after_gen = true; ctx.cls("hist_reinit"); h.text += "reinit "; } break;
-    case 6: if (o.inited()) { BaseEmitter* e = o.em(o.arch, int(arg(1) % 3)); if (e->code() == &code) { code.detach(e); ctx.cls("hist_detach"); sfmt(h.text, "detach(%s) ", kKindName[arg(1) % 3]); } } break;
-    case 7: if (o.inited()) { BaseEmitter* e = o.em(o.arch, int(arg(1) % 3)); if (e->code() == &code) { code.detach(e); code.attach(e); ctx.cls("hist_detach_reattach"); sfmt(h.text, "reattach(%s) ", kKindName[arg(1) % 3]); } } break;
+    case 5: if (o.inited()) { code.reinit(); o.spent.clear(); o.relocated = false; h.n_reset++; if (h.gen_nonempty) h.reset_after_gen = true; ctx.cls("hist_reinit"); h.text += "reinit "; } break;
+    case 6: if (o.inited()) { BaseEmitter* e = o.em(o.arch, int(arg(1) % 3)); if (e->code() == &code) { code.detach(e); o.spent.erase(e); ctx.cls("hist_detach"); sfmt(h.text, "detach(%s) ", kKindName[arg(1) % 3]); check_detached(ctx, o, "after detach()"); } } break;
+    case 7: if (o.inited()) { BaseEmitter* e = o.em(o.arch, int(arg(1) % 3)); if (e->code() == &code) { code.detach(e); o.spent.erase(e); code.attach(e); if (h.gen_nonempty) h.reset_after_gen = true; ctx.cls("hist_detach_reattach"); sfmt(h.text, "reattach(%s) ", kKindName[arg(1) % 3]); } } break;
     case 8: {
       if (!o.inited()) break;
       BaseEmitter* e = o.em(o.arch, int(arg(1) % 3));
@@ -1093,7 +1217,8 @@ static bool compare_snaps(vh::Ctx& ctx, const Snap& ref, const Snap& got, int ki
   if (ref.trace != got.trace) { report("residue-call-results:" + k, "results of the emitter calls", ref.trace, got.trace); return false; }
   if (ref.nodes != got.nodes) { report("residue-node-list:" + k, "node list before finalize()", ref.nodes, got.nodes); return false; }
   if (ref.post != got.post) { report("residue-flatten-relocate", "flatten/relocate results", ref.post, got.post); return false; }
-  if (ref.errs != got.errs) { report("residue-error-messages", "error handler messages", ref.errs, got.errs); return false; }
+  // error-message text legitimately carries more detail when a logger / RA annotation is active: only compared between equal flag sets
+  if (!flat_key && ref.errs != got.errs) { report("residue-error-messages", "error handler messages", ref.errs, got.errs); return false; }
   if (with_log && ref.log != got.log) { ok = false; if (!probe) ctx.fail_unless_known(flat_key ? std::string(flat_key) : std::string("log-text-differs-after-reuse"), desc + ": logger text differs " + first_diff(ref.log, got.log)); }
   return ok;
 }
@@ -1123,6 +1248,8 @@ static void run_fresh(const Plan& pl, const Flags& fl, uint64_t base, const vh::
   }
 }
 
+static std::string desc_early(const Plan& pl, const Hist& h) { return std::string(kArchName[pl.arch]) + "/" + kKindName[pl.kind] + " history{" + h.text + "}"; }
+
 void vh_run(const vh::Case& c, vh::Ctx& ctx) {
   auto cfg = [&](size_t i) -> uint64_t { return i < c.cfg.size() ? uint64_t(c.cfg[i]) : 0; };
   Plan pl;
@@ -1136,6 +1263,7 @@ void vh_run(const vh::Case& c, vh::Ctx& ctx) {
   pl.fl.heap_seed = int(cfg(6) % 256);
   pl.fl.logfmt = int(cfg(7) % 4);
   pl.post = int(cfg(8) % 4);
+  pl.fl.enc = int(cfg(9) % 4);
   static const vh::Op empty_prog;
   const vh::Op& prog = c.ops.empty() ? empty_prog : c.ops.back();
   size_t nhist = c.ops.empty() ? 0 : c.ops.size() - 1;
@@ -1158,7 +1286,7 @@ void vh_run(const vh::Case& c, vh::Ctx& ctx) {
     BaseEmitter* e = nullptr;
     if (pl.mix == 2) {
       // fresh holder + recycled emitter: the emitter must be detached from the old holder first
-      if (o.inited()) { o.code.reset(pl.final_step == 1 ? ResetPolicy::kHard : ResetPolicy::kSoft); o.base = Globals::kNoBaseAddress; }
+      if (o.inited()) { o.code.reset(pl.final_step == 1 ? ResetPolicy::kHard : ResetPolicy::kSoft); o.spent.clear(); o.relocated = false; o.base = Globals::kNoBaseAddress; }
       aux.reset(new ObjSet(pl.fl));
       holder = aux.get();
       holder->do_init(pl.arch, Globals::kNoBaseAddress);
@@ -1167,8 +1295,8 @@ void vh_run(const vh::Case& c, vh::Ctx& ctx) {
       ctx.cls("final_fresh_holder_recycled_emitter");
     }
     else {
-      if (pl.final_step == 2 && o.inited() && o.arch == pl.arch) { o.code.reinit(); used_reinit = true; ctx.cls("final_reinit"); }
-      else if (o.inited()) { bool hard = pl.final_step == 1; o.code.reset(hard ? ResetPolicy::kHard : ResetPolicy::kSoft); o.base = Globals::kNoBaseAddress; ctx.cls(hard ? "final_reset_hard" : "final_reset_soft"); }
+      if (pl.final_step == 2 && o.inited() && o.arch == pl.arch) { o.code.reinit(); o.spent.clear(); o.relocated = false; used_reinit = true; ctx.cls("final_reinit"); }
+      else if (o.inited()) { bool hard = pl.final_step == 1; o.code.reset(hard ? ResetPolicy::kHard : ResetPolicy::kSoft); o.spent.clear(); o.relocated = false; o.base = Globals::kNoBaseAddress; ctx.cls(hard ? "final_reset_hard" : "final_reset_soft"); }
       else ctx.cls("final_holder_was_uninitialized");
       if (!o.inited()) o.do_init(pl.arch, Globals::kNoBaseAddress);
       if (pl.fl.L && !o.logger_on) { o.code.set_logger(&o.logger); o.logger_on = true; }
@@ -1177,6 +1305,13 @@ void vh_run(const vh::Case& c, vh::Ctx& ctx) {
       else { e = o.em(pl.arch, pl.kind); ctx.cls("final_both_recycled"); }
       if (!e->code()) o.code.attach(e);
       for (BaseEmitter* x = o.code.attached_first(); x; x = x->_attached_next) if (x != e) extra_attached = true;
+    }
+    if (pl.kind == kCompiler && !static_cast<BaseCompiler*>(e)->jump_annotations().is_empty())
+      ctx.fail_unless_known("residue-detached-emitter:jump_annotations", desc_early(pl, h) + ": the re-initialised Compiler still lists " + std::to_string(static_cast<BaseCompiler*>(e)->jump_annotations().size()) + " jump annotations of its earlier use");
+    if (e->has_own_error_handler() && ctx.is_known("residue-detached-emitter:error_handler")) {
+      // known finding: run_passes() turns the holder's error handler into an emitter-owned one; drop it the documented way so the search continues
+      e->set_error_handler(nullptr);
+      ctx.known_excluded("residue-detached-emitter:error_handler");
     }
     if (h.gen_nonempty) h.reset_after_gen = true;
     final_base = holder->base;
@@ -1202,9 +1337,9 @@ void vh_run(const vh::Case& c, vh::Ctx& ctx) {
   bool flagged = pl.fl.L || pl.fl.V || pl.fl.H || pl.fl.A;
   if (flagged) {
     Snap s0;
-    Flags none; none.logfmt = pl.fl.logfmt;
+    Flags none; none.logfmt = pl.fl.logfmt; none.enc = pl.fl.enc;
     run_fresh(pl, none, final_base, prog, s0, ctx, "plain fresh run");
-    bool comparable = !pl.fl.V || s0.nerr == f1.nerr;
+    bool comparable = !pl.fl.V || s0.trace == f1.trace;   // validation legitimately rejects calls the bare encoder accepts or fails later
     if (!comparable) ctx.cls("validation_rejects_more_than_encoder");
     if (comparable && !compare_snaps(ctx, s0, f1, pl.kind, "?probe", desc, false)) {
       // attribute the difference to one flag
@@ -1213,17 +1348,49 @@ void vh_run(const vh::Case& c, vh::Ctx& ctx) {
       bool attributed = false;
       for (const FK& fk : fks) {
         if (!fk.on) continue;
-        Flags one; one.logfmt = pl.fl.logfmt; one.heap_seed = pl.fl.heap_seed; one.static_sel = pl.fl.static_sel; one.RAdbg = pl.fl.RAdbg;
+        Flags one; one.enc = pl.fl.enc; one.logfmt = pl.fl.logfmt; one.heap_seed = pl.fl.heap_seed; one.static_sel = pl.fl.static_sel; one.RAdbg = pl.fl.RAdbg;
         if (fk.which == 0) one.H = true; else if (fk.which == 1) one.L = true; else if (fk.which == 2) one.V = true; else one.A = true;
         Snap sx;
         run_fresh(pl, one, final_base, prog, sx, ctx, "single-flag fresh run");
-        if (fk.which == 2 && sx.nerr != s0.nerr) continue;
+        if (fk.which == 2 && sx.trace != s0.trace) continue;
         if (!compare_snaps(ctx, s0, sx, pl.kind, fk.key, desc + " [fresh objects, only this flag]", false)) attributed = true;
       }
       if (!attributed) ctx.fail_unless_known("flag-combination-changes-output", desc + ": fresh objects with all flags differ from plain fresh objects, no single flag does");
     }
   }
   compare_snaps(ctx, f1, s1, pl.kind, nullptr, desc, pl.fl.L);
+
+  // ---- a function compiled after another function by the same Compiler == the function compiled alone ----
+  if (pl.kind == kCompiler) {
+    std::vector<std::pair<size_t, size_t>> funcs;   // [begin, end) int ranges of FUNC items (header + body)
+    for (size_t i = 4; i + 3 < prog.size();) {
+      if (uint64_t(prog[i]) % T_COUNT == T_FUNC) {
+        size_t nbody = size_t(uint64_t(prog[i + 2]) % 20), end = std::min(prog.size(), i + 4 + nbody * 4);
+        funcs.push_back({i, end});
+        i = end;
+      } else i += 4;
+    }
+    if (funcs.size() >= 2) {
+      const vh::Op align_item = {T_ALIGN, 0, 6, 0};
+      vh::Op pb = {2, kCompiler, 0, 0}, pab = {2, kCompiler, 0, 0};
+      auto add = [&](vh::Op& dst, std::pair<size_t, size_t> r) { dst.insert(dst.end(), align_item.begin(), align_item.end()); dst.insert(dst.end(), prog.begin() + long(r.first), prog.begin() + long(r.second)); };
+      add(pab, funcs[0]); add(pab, funcs[1]);
+      add(pb, funcs[1]);
+      Plan sp = pl; sp.post = 0;
+      Flags none; none.logfmt = pl.fl.logfmt; none.enc = pl.fl.enc;
+      Snap sab, sb;
+      { ObjSet o(none); o.do_init(pl.arch, Globals::kNoBaseAddress); BaseEmitter* e = o.em(pl.arch, kCompiler); o.code.attach(e); run_final(o, e, pl.arch, kCompiler, pab, 0, nullptr, sab, nullptr, true); }
+      { ObjSet o(none); o.do_init(pl.arch, Globals::kNoBaseAddress); BaseEmitter* e = o.em(pl.arch, kCompiler); o.code.attach(e); run_final(o, e, pl.arch, kCompiler, pb, 0, nullptr, sb, nullptr, true); }
+      if (sab.nerr == 0 && sb.nerr == 0 && sab.func_offsets.size() == 2 && sb.func_offsets.size() == 1 && sab.func_offsets[1] != ~uint64_t(0) && sb.func_offsets[0] != ~uint64_t(0) &&
+          sab.secbytes.size() == sb.secbytes.size() && !sab.secbytes.empty()) {
+        std::string tail_ab = sab.secbytes[0].substr(std::min(sab.secbytes[0].size(), size_t(sab.func_offsets[1]) * 2));
+        std::string tail_b = sb.secbytes[0].substr(std::min(sb.secbytes[0].size(), size_t(sb.func_offsets[0]) * 2));
+        ctx.cls("func_slice_compared");
+        if (tail_ab != tail_b)
+          ctx.fail_unless_known("residue-function-body:compiler", desc + ": the 2nd function of P_final compiled after the 1st one by the same Compiler differs from the same function compiled alone (both 64-byte aligned, local constant pools) " + first_diff(tail_b, tail_ab));
+      } else ctx.cls("func_slice_not_comparable");
+    }
+  }
 
   // ---- classes ----
   ctx.cls(std::string("arch_") + kArchName[pl.arch]);
@@ -1286,7 +1453,7 @@ static rc::Gen<vh::Op> gen_hist_op() {
   return gen::exec([]() -> vh::Op {
     int sel = *vh::irange<int>(0, 99);
     if (sel < 34) return *gen_gen_op();
-    if (sel < 40) return vh::Op{0, *vh::irange<int>(0, 2), *vh::irange<int>(0, 3)};
+    if (sel < 40) return vh::Op{0, *vh::irange<int>(0, 2), *vh::irange<int>(0, 3), *vh::irange<int>(0, 1)};
     if (sel < 46) return vh::Op{1, *vh::irange<int>(0, 2)};
     if (sel < 62) return vh::Op{3, *vh::irange<int>(0, 14), *vh::irange<int>(0, 2), *vh::irange<int>(0, 5)};
     if (sel < 74) return vh::Op{4, *vh::irange<int>(0, 1)};
@@ -1306,7 +1473,7 @@ rc::Gen<vh::Case> vh_gen(const vh::Opts&) {
     int flags = *gen::weightedElement<int>({{5, 0}, {2, 1}, {2, 2}, {3, 4}, {2, 8}, {1, 3}, {1, 5}, {1, 12}, {1, 17}, {1, 21}, {1, 15}, {1, 31}, {1, 6}, {1, 9}});
     int fstep = *vh::irange<int>(0, 2);
     int mix = *gen::weightedElement<int>({{7, 0}, {2, 1}, {2, 2}});
-    c.cfg = {arch, kind, flags, fstep, mix, *vh::irange<int>(0, 4), *vh::irange<int>(0, 255), *vh::irange<int>(0, 3), *gen::weightedElement<int>({{5, 0}, {2, 1}, {1, 2}, {1, 3}})};
+    c.cfg = {arch, kind, flags, fstep, mix, *vh::irange<int>(0, 4), *vh::irange<int>(0, 255), *vh::irange<int>(0, 3), *gen::weightedElement<int>({{5, 0}, {2, 1}, {1, 2}, {1, 3}}), *gen::weightedElement<int>({{5, 0}, {1, 1}, {1, 2}, {1, 3}})};
     c.ops = *gen::container<std::vector<vh::Op>>(gen_hist_op());
     // the final program: same emitter kind as cfg
     vh::Op fin = {2, kind, *gen::weightedElement<int>({{3, 0}, {2, 4}}), 0};
@@ -1341,7 +1508,7 @@ bool vh_enum(const vh::Opts& o, uint64_t k, vh::Case& out) {
     return op;
   };
   out = vh::Case();
-  out.cfg = {arch, kind, flags, fstep, mix, rnd(5), rnd(256), rnd(4), rnd(4)};
+  out.cfg = {arch, kind, flags, fstep, mix, rnd(5), rnd(256), rnd(4), rnd(4), rnd(4)};
   out.ops.push_back(vh::Op{0, arch, 0});
   out.ops.push_back(prog(int(rnd(3)), 1 | (rnd(2) ? 4 : 0), 24));
   out.ops.push_back(vh::Op{3, rnd(15), rnd(3), rnd(6)});
